@@ -20,6 +20,8 @@ func ctxProgram() idl.Atom {
 	svc := &idl.Decl{Service: &idl.Service{Name: "Svc", Methods: []*idl.Method{
 		{Name: "echo", Ret: T("i32"), Args: []*idl.Field{{ID: 1, Name: "v", Req: "default", Type: T("i32")}}, Throws: []*idl.Field{{ID: 1, Name: "oops", Req: "default", Type: T("Oops")}}},
 		{Name: "move", Ret: T("Point"), Args: []*idl.Field{{ID: 1, Name: "p", Req: "default", Type: T("Point")}, {ID: 2, Name: "dx", Req: "default", Type: T("i32")}}},
+		{Name: "names", Ret: idl.List(T("string")), Args: []*idl.Field{{ID: 1, Name: "n", Req: "default", Type: T("i32")}}},
+		{Name: "blob", Ret: T("binary")},
 		{Name: "check", Args: []*idl.Field{{ID: 1, Name: "s", Req: "default", Type: T("Strict")}}},
 		{Name: "ping"},
 		{Name: "fire", Oneway: true, Args: []*idl.Field{{ID: 1, Name: "n", Req: "default", Type: T("i32")}}},
@@ -128,6 +130,18 @@ func runC09(res *result) {
 	i32 := r.Resolve(main, idl.T("i32"))
 	pointRT := r.Resolve(main, idl.T("Point"))
 	n := 0
+	// a timeout of zero ("no deadline") travels like any other: direct transport only, because the
+	// stock HTTP / NATS clients give up at once with it
+	for zi, hm := range headerMaps(false)[:6] {
+		z := &callSpec{Kind: "rpc", Service: "Svc", Method: "Echo", WireMethod: "echo", Args: []*idl.V{iv(1)}, ArgTypes: []*idl.RT{i32}, RetType: i32,
+			Transport: "direct", Proto: protos[zi%len(protos)], Headers: hm, Cid: "cz", TimeoutZero: true, Outcome: &outcomeSpec{Kind: "return", Value: iv(2), RespHdr: map[string]string{"r": "v"}}}
+		plan.Ops = append(plan.Ops, drvOp{Op: "call", Call: z})
+		exps = append(exps, exp{z, fmt.Sprintf("rpc echo headers=%v timeout=0 direct/%s", hm, z.Proto)})
+		zo := &callSpec{Kind: "rpc", Service: "Svc", Method: "Fire", WireMethod: "fire", Args: []*idl.V{iv(1)}, ArgTypes: []*idl.RT{i32}, Oneway: true,
+			Transport: "direct", Proto: protos[zi%len(protos)], Headers: hm, Cid: "cz", TimeoutZero: true, Outcome: &outcomeSpec{Kind: "return"}}
+		plan.Ops = append(plan.Ops, drvOp{Op: "call", Call: zo})
+		exps = append(exps, exp{zo, fmt.Sprintf("oneway fire headers=%v timeout=0", hm)})
+	}
 	for _, hm := range headerMaps(thorough) {
 		for ci, cid := range cids {
 			for ti, to := range timeouts {
